@@ -297,6 +297,9 @@ type gate struct {
 	// eager (optional): called at every decision point once the whole process is quiescent, with the
 	// node keys of the bodies parked at the gate and of the bodies released so far
 	eager func(parked, released []string)
+	// pick (optional) chooses which of the parked bodies (node keys, sorted by park key) is released
+	// next; it overrides sched/rng (targeted completion orders: "node n first", "node n last")
+	pick func(parkedNodes []string) int
 }
 
 func newGate(sched uint64, rng *mon.Rand) *gate {
@@ -392,7 +395,16 @@ func (g *gate) controller() {
 				g.eager(pk, rl)
 			}
 			var idx int
-			if g.rng != nil {
+			if g.pick != nil {
+				nodes := make([]string, len(keys))
+				for i, k := range keys {
+					nodes[i] = g.nodeOf[k]
+				}
+				idx = g.pick(nodes)
+				if idx < 0 || idx >= len(keys) {
+					idx = 0
+				}
+			} else if g.rng != nil {
 				idx = g.rng.Intn(len(keys))
 			} else {
 				idx = int(g.sched % uint64(len(keys)))
